@@ -115,7 +115,8 @@ class Cleaner(object):
         def _clean_line(line):
             if len(line) > MAX_LINE_LENGTH:
                 # Keep the first MAX_LINE_LENGTH chars only (it rarely happens)
-                line = line[:MAX_LINE_LENGTH]
+                # and the newline that ends a line read from a file
+                line = line[:MAX_LINE_LENGTH] + ("\n" if line.endswith("\n") else "")
                 logger.debug('Extra-long line is truncated ...')
 
             for parser, kwargs in parsers:
